@@ -512,7 +512,13 @@ func (s *Server) cmdNearby(msg *Message) (res resp.Value, err error) {
 	wr := &bytes.Buffer{}
 	sargs, err := s.cmdSearchArgs(false, "nearby", vs, nearbyTypes)
 	if sargs.usingLua() {
-		defer sargs.Close()
+		defer func() {
+			// a fence that goes live keeps its interpreters (goLive
+			// returns them when the connection ends)
+			if _, live := err.(liveFenceSwitches); !live {
+				sargs.Close()
+			}
+		}()
 		defer func() {
 			if r := recover(); r != nil {
 				res = NOMessage
@@ -616,7 +622,13 @@ func (s *Server) cmdWITHINorINTERSECTS(cmd string, msg *Message) (res resp.Value
 	wr := &bytes.Buffer{}
 	sargs, err := s.cmdSearchArgs(false, cmd, vs, withinOrIntersectsTypes)
 	if sargs.usingLua() {
-		defer sargs.Close()
+		defer func() {
+			// a fence that goes live keeps its interpreters (goLive
+			// returns them when the connection ends)
+			if _, live := err.(liveFenceSwitches); !live {
+				sargs.Close()
+			}
+		}()
 		defer func() {
 			if r := recover(); r != nil {
 				res = NOMessage
@@ -736,7 +748,13 @@ func (s *Server) cmdSearch(msg *Message) (res resp.Value, err error) {
 	wr := &bytes.Buffer{}
 	sargs, err := s.cmdSeachValuesArgs(vs)
 	if sargs.usingLua() {
-		defer sargs.Close()
+		defer func() {
+			// a fence that goes live keeps its interpreters (goLive
+			// returns them when the connection ends)
+			if _, live := err.(liveFenceSwitches); !live {
+				sargs.Close()
+			}
+		}()
 		defer func() {
 			if r := recover(); r != nil {
 				res = NOMessage
